@@ -48,6 +48,9 @@ CHECKS["C10"] = dict(cat="exploration", tech="exhaustive enumeration of referenc
 CHECKS["C17"] = dict(cat="model_checking", tech="exhaustive enumeration of all operation sequences (length <= 3/4) over a menu of mode-sensitive operations x every mode assignment, flipping the process-wide flag at run time; outcomes compared with fresh-process baselines; plus the codec corpus in both modes",
    text="Every sequence of up to 3 (4) operations from an 11-operation menu (one odxraise-based problem per module family: unknown parameter, out-of-range value, invalid UTF-8, unknown DTC, unknown MUX case, PHYS-CONST mismatch, wrong static-field count, too short MIN-MAX value, dangling reference, unresolvable SNREF, plus a valid control) under every assignment of {strict, lenient} to the steps is executed in one process that flips odxtools.exceptions.strict_mode; each step must behave like a fresh process in that mode; menu problems must be errors in strict and downgraded in lenient mode; every strict success of the codec corpus must give the identical result in lenient mode.",
    note="Trusted: the menu's classification as downgradable (read from the code). Not every odxraise call site is covered (stated in DESIGN.md section 6).", ref="5/C17")
+CHECKS["C07"] = dict(cat="exploration", tech="exhaustive enumeration of compu-method configurations (8 categories x type pairs x coefficient/limit/interval menus, 1..4 scales) x every value of 8-bit internal domains + boundary sets, compared with exact rational arithmetic (fractions.Fraction)",
+   text="8 k (quick) / 32 k (thorough) compu methods are emitted as ODX, loaded through the real loader and every conversion / validity predicate is compared with an exact three-valued reference: forward and inverse formulas with nearest-integer rounding, OPEN/CLOSED/INFINITE limits, validity of images, refusal outside the range, round trip x->p->x on injective methods, encodability of monotone continuous piecewise-linear methods.",
+   note="Trusted: odxmodel/refcompu.py. Exact rounding ties, float comparisons below 1e-9 relative, overlapping TEXTTABLE ranges and one-sided numeric scales are DON'T-CARE.", ref="5/C07")
 NOT_BUILT_REASON = "check not built yet in this revision of /verif (design in DESIGN.md section 5); not claimed"
 
 def main():
